@@ -20,6 +20,7 @@ type Env struct {
 	pkg   *types.Package // scope for constants, type names and imports
 	frame *Frame         // for local variables by name (loop invariants); may be nil
 	log   *[]writeRec
+	snapBase *State         // state whose lock snapshots are used (nested at_lock inside at_unlock)
 	cellState *State        // state used for local variables (at_lock/at_unlock keep current locals)
 	oldVars map[string]*Val // parameter entry values, used inside old() and as a fallback in body mode
 }
@@ -421,15 +422,20 @@ func (env *Env) evalCall(e *Expr) *Val {
 	case "old":
 		return env.inOld().eval(e.Args[0])
 	case "at_lock", "at_unlock": // state right after the most recent acquisition / right before the most recent release
-		snap := env.cur.snaps["lock"]
+		base := env.cur
+		if env.snapBase != nil {
+			base = env.snapBase
+		}
+		snap := base.snaps["lock"]
 		if e.Name == "at_unlock" {
-			snap = env.cur.snaps["unlock"]
+			snap = base.snaps["unlock"]
 		}
 		if snap == nil {
 			efail("%s() used but no lock was acquired/released on this path", e.Name)
 		}
 		n := *env
 		n.cur = snap
+		n.snapBase = base
 		if n.cellState == nil {
 			n.cellState = env.cur
 		}
